@@ -312,8 +312,9 @@ def check_property(pid, tier="quick", seed=0, verbose=True):
     # ---- known findings ---------------------------------------------------------------
     kf_lines = []
     oracle_used = False
+    helpers_only = getattr(prop, "claim_level", "proof") == "exploration"
     for ent in known:
-        if ent.get("status", "open") != "open":
+        if ent.get("status", "open") != "open" or helpers_only:
             continue
         res = run_oracle(pid, "witness", {"finding": ent})
         if res.get("error"):
@@ -361,6 +362,33 @@ def check_property(pid, tier="quick", seed=0, verbose=True):
             log(f"UNDECIDED obligation {v.name}: {v.result['result']} ({v.result.get('reason', '')}) attempts={v.result.get('attempts')}")
         log(f"UNDECIDED property={pid}: {len(undecided)} obligation(s) neither proved nor refuted")
         exit_code = 2
+
+    if helpers_only:
+        # The property is CLAIMED at level `exploration`: the contracts cover helper functions only and
+        # the bounded run-time check decides the property.  A failed helper obligation is still a
+        # violation; otherwise the bounded check runs, writes the (exploration-level) evidence, and the
+        # proof summary of the helpers is attached to it.
+        from .bounded import check_bounded
+
+        req = [v for v in vcs if v.required]
+        summary = {"functions_under_contract": info.get("functions", []), "obligations": len(req),
+                   "discharged": len([v for v in req if v.result and v.result["result"] == "unsat"]), "solver_time_s": round(solver_time, 3),
+                   "note": "helper kernels proved by the VC generator; NOT the property as a whole (see the bounded check)"}
+        if exit_code == 1:
+            write_evidence(pid, tier, seed, prop, vcs, info, time.time() - t_start, solver_time=solver_time, violations=len(viol_lines), undecided_n=len(undecided))
+            return 1
+        code_b = check_bounded(pid, tier, seed, log)
+        evp = os.path.join(evidence_dir(), f"{pid}.json")
+        try:
+            ev = json.load(open(evp))
+            ev["coverage"]["proved_helpers"] = summary
+            ev["coverage"]["helpers_undecided"] = len(undecided)
+            json.dump(ev, open(evp, "w"), indent=1, default=str)
+        except Exception:
+            pass
+        if os.environ.get("VF_UPDATE_BASELINE") and exit_code == 0 and code_b == 0:
+            update_baseline(pid, vcs)
+        return code_b if code_b != 0 else exit_code
 
     # ---- thorough extras ---------------------------------------------------------------
     extra = {}
